@@ -10,10 +10,14 @@ package zzsim
 import (
 	"runtime"
 	"sync"
+	"sync/atomic"
 	"syscall"
 	"time"
 	"unsafe"
 )
+
+// goroutines of the code under test started while no simulation was running
+var outside atomic.Int64
 
 //go:norace
 func ptr(b *byte) unsafe.Pointer { return unsafe.Pointer(b) }
@@ -380,7 +384,15 @@ func panicString(r interface{}) string {
 // Go is what instrumented `go f()` statements call.
 func Go(f func()) {
 	if !Active() {
-		go f()
+		// started while no simulation is running (package initialisation, or
+		// between two phases): a real goroutine. If it is still alive when a phase
+		// starts it executes instrumented code behind the scheduler's back, which
+		// the simulator cannot own: the run is then no verdict (see Run).
+		outside.Add(1)
+		go func() {
+			defer outside.Add(-1)
+			f()
+		}()
 		return
 	}
 	// a goroutine started by the code under test works within the step budget
@@ -663,6 +675,15 @@ func finish(id int) {
 
 // Run hands the token to the first task and returns when every task is done.
 func Run() {
+	if outside.Load() > 0 {
+		// give short-lived ones a moment to end
+		for i := 0; i < 2000 && outside.Load() > 0; i++ {
+			runtime.Gosched()
+		}
+		if outside.Load() > 0 {
+			setUnsupported("the code under test started a goroutine outside the simulated program (package initialisation) that is still running")
+		}
+	}
 	if replay {
 		loadTape()
 	}
